@@ -86,7 +86,8 @@ enum Ctr {
         CT_FLUSH_BURST, CT_REINIT_INFLIGHT, CT_REINIT_IDLE, CT_REATTACH_INFLIGHT, CT_REATTACH_IDLE,
         CT_MISUSE, CT_SOLO_RUNS, CT_REF_CHECKS, CT_REF_SKIPPED, CT_MEM_CHECKS, CT_GUARD_PLACED_END, CT_GUARD_PLACED_START,
         CT_CHAINED_JOBS, CT_OOP_JOBS, CT_SPECIAL_IV, CT_MAX_INFLIGHT, CT_SCRUB_SCANS, CT_SYNC_BURST, CT_DIRECT,
-        CT_KEYPREP, CT_SGL_SEGS, CT_XVAR_RUNS, CT_DEGRADED_OPS, CT_REATTACH_OTHER_IMAGE, CT_PREEMPT_FIRED, CT_PREEMPT_MISSED, CT_N
+        CT_KEYPREP, CT_SGL_SEGS, CT_XVAR_RUNS, CT_DEGRADED_OPS, CT_REATTACH_OTHER_IMAGE, CT_PREEMPT_FIRED, CT_PREEMPT_MISSED,
+        CT_SGL_INVALID, CT_N
 };
 extern const char *const ctr_names[CT_N];
 
